@@ -116,6 +116,15 @@ let () =
     | [L (A kind :: _); _; L [A "modified"; A what]] ->
       bump ("kind_" ^ kind); bump "obs_modified_argument";
       verdict ~agree:false ~spec:false ~kf:"-" ~detail:("the call modified its argument: " ^ what)
+    (* the process died in the call (a panic outside the calling goroutine, which no caller can
+       recover): never what the model says (a panic the caller can recover); the specification
+       takes it for a panic, which it accepts only for a list holding an object without data *)
+    | [L [A "filter"; q; _objs]; L (A "trees" :: trees); L [A "crash"]] ->
+      bump "kind_filter"; bump "obs_process_died";
+      let q = (match q with A "nil" -> None | x -> Some (cf_of x)) in
+      let os = List.mapi (fun i t -> { o_tag = n_of_int i; o_data = data_of t }) trees in
+      verdict ~agree:false ~spec:(filter_spec_ok q os FPanic) ~kf:"-"
+        ~detail:"the process died in the call: a panic outside the calling goroutine, which no caller can recover"
     | [L (A kind :: _); _; L [A "crash"]] ->
       bump ("kind_" ^ kind); bump "obs_process_died";
       verdict ~agree:false ~spec:false ~kf:"-"
